@@ -67,12 +67,13 @@ let bi_op_of = function "add" -> BAdd | "sub" -> BSub | "mul" -> BMul | "divf" -
                       | s -> failwith ("bi op " ^ s)
 
 let show_int_obs (o : int_obs) : string =
-  Printf.sprintf "ok %s %s %s %s %s %s %s %s" (string_of_z o.io_val) (show_rb o.io_cbor) (show_on o.io_pos) (show_on o.io_neg)
-    (show_oz o.io_i32) (show_rz o.io_str_rt) (show_rz o.io_cbor_rt) (show_rz o.io_json_rt)
+  Printf.sprintf "ok %s %s %s %s %s %s %s %s %s" (string_of_z o.io_val) (show_rb o.io_cbor) (show_on o.io_pos) (show_on o.io_neg)
+    (show_oz o.io_i32) (show_rz o.io_str_rt) (show_rz o.io_cbor_rt) (show_rz o.io_json_rt) (show_rb o.io_meta_json)
 let parse_int_obs = function
-  | ["ok"; z; cbor; pos; neg; i32; s2; b2; j2] ->
+  | ["ok"; z; cbor; pos; neg; i32; s2; b2; j2; mj] ->
     Some { io_val = z_of_string z; io_cbor = parse_rb cbor; io_pos = parse_on pos; io_neg = parse_on neg; io_i32 = parse_oz i32;
-           io_str_rt = parse_rz s2; io_cbor_rt = parse_rz b2; io_json_rt = parse_rz j2 }
+           io_str_rt = parse_rz s2; io_cbor_rt = parse_rz b2; io_json_rt = parse_rz j2;
+           io_meta_json = (if mj = "schemas-differ" then Panic else parse_rb mj) }
   | _ -> None
 
 let rec mint_ops = function
@@ -117,7 +118,14 @@ let () = run_driver (fun toks impl ->
     let ((c, lt), mx) = model_bncmp a b in
     (Printf.sprintf "ok %s %s %s" (string_of_z c) (bit lt) (string_of_n mx),
      verdict (fun () -> match impl with ["ok"; c; lt; mx] -> judge_bncmp a b ((z_of_string c, lt = "1"), n_of_string mx) | _ -> failwith "obs"))
-  | ["bnstr"; h] ->
+  | ["jval"; hc; hq] ->
+    let sc = text_of_hex hc and sq = text_of_hex hq in
+    ((match model_bnstr sc, model_bnstr sq with Ok c, Ok q -> Printf.sprintf "ok %s %s" (string_of_n c) (string_of_n q) | _ -> "err"),
+     verdict (fun () -> match impl with
+         | ["ok"; c; q] -> (match judge_bnstr sc (Ok (n_of_string c)), judge_bnstr sq (Ok (n_of_string q)) with Holds, Holds -> Holds | _ -> Fails cls_none)
+         | ["err"] -> Holds
+         | _ -> Fails cls_none))
+  | [("bnstr" | "jbn"); h] ->
     let s = text_of_hex h in
     ((match model_bnstr s with Ok v -> "ok " ^ string_of_n v | r -> show_rn r),
      verdict (fun () -> judge_bnstr s (match impl with ["ok"; v] -> Ok (n_of_string v) | ["err"] -> Err | _ -> Panic)))
@@ -126,8 +134,9 @@ let () = run_driver (fun toks impl ->
     let (((s, r1), bs), r2) = model_bnrt n in
     (Printf.sprintf "ok %s %s %s %s" (hex_of_bytes s) (show_rn r1) (hex_of_bytes bs) (show_rn r2),
      verdict (fun () -> match impl with ["ok"; s; r1; bs; r2] -> judge_bnrt n (((text_of_hex s, parse_rn r1), bytes_of_hex bs), parse_rn r2) | _ -> failwith "obs"))
-  | ["int"; how; arg] ->
+  | [("jint" | "jmint") as how; arg] | ["int"; how; arg] ->
     let src = (match how with
+        | "jint" | "jmint" -> SFromStr (text_of_hex arg)
         | "new" -> SNew (n_of_string arg) | "neg" -> SNewNegative (n_of_string arg) | "i32" -> SNewI32 (z_of_string arg)
         | "str" -> SFromStr (text_of_hex arg) | "bytes" -> SFromBytes (bytes_of_hex arg) | "big" -> SBigIntAsInt (z_of_string arg)
         | "json" -> SJsonNumber (text_of_hex arg) | "key" -> SMetaKey (text_of_hex arg) | s -> failwith ("int source " ^ s)) in
@@ -171,7 +180,7 @@ let () = run_driver (fun toks impl ->
          | ["ok"; z; bs2; z2] -> Ok ((z_of_string z, bytes_of_hex bs2), parse_rz z2)
          | ["err"] -> Err
          | _ -> Panic)))
-  | ["bistr"; h] ->
+  | [("bistr" | "jbi"); h] ->
     let s = text_of_hex h in
     ((match model_bistr s with Ok v -> "ok " ^ string_of_z v | r -> show_rz r),
      verdict (fun () -> judge_bistr s (match impl with ["ok"; v] -> Ok (z_of_string v) | ["err"] -> Err | _ -> Panic)))
@@ -182,8 +191,8 @@ let () = run_driver (fun toks impl ->
   | ["val"; a; b] ->
     let a = parse_value a and b = parse_value b in
     let o = model_val a b in
-    (Printf.sprintf "ok add=%s rev=%s sub=%s csub=%s undo=%s cmp=%s ord=%s%s%s%s eq=%s zero=%s"
-       (show_rv o.vo_add) (show_rv o.vo_add_rev) (show_rv o.vo_sub) (show_value o.vo_csub)
+    (Printf.sprintf "ok add=%s rev=%s sub=%s csub=%s msub=%s undo=%s cmp=%s ord=%s%s%s%s eq=%s zero=%s"
+       (show_rv o.vo_add) (show_rv o.vo_add_rev) (show_rv o.vo_sub) (show_value o.vo_csub) (show_ma o.vo_msub)
        (match o.vo_undo with Some r -> show_rv r | None -> "-") (show_oz o.vo_cmp)
        (bit o.vo_lt) (bit o.vo_le) (bit o.vo_gt) (bit o.vo_ge) (bit o.vo_eq) (bit o.vo_zero),
      verdict (fun () -> match impl with
@@ -191,6 +200,7 @@ let () = run_driver (fun toks impl ->
            let ord = field fs "ord" in
            judge_val a b { vo_add = parse_rv (field fs "add"); vo_add_rev = parse_rv (field fs "rev"); vo_sub = parse_rv (field fs "sub");
                            vo_csub = (match parse_rv (field fs "csub") with Ok v -> v | _ -> failwith "csub");
+                           vo_msub = parse_ma (field fs "msub");
                            vo_undo = (let u = field fs "undo" in if u = "-" then None else Some (parse_rv u));
                            vo_cmp = parse_oz (field fs "cmp");
                            vo_lt = (ord.[0] = '1'); vo_le = (ord.[1] = '1'); vo_gt = (ord.[2] = '1'); vo_ge = (ord.[3] = '1');
